@@ -211,6 +211,9 @@ def check(db, rep):
     _nested_found(db, rep)
     _raw_cache_coupled(db, rep)
     _morphology_total(db, rep)
+    r18 = rep.rule('r18', 'TEXT-SLICES (shared with C20 r5): the text between and around the references is copied by ccl::Substr, which - interpreted on every text of up to three code points of one to four bytes and every range - returns exactly the code points of the range: a slice is never cut inside a multi-byte character', 1)
+    from rules import C20
+    C20.substr_evaluated(db, r18, rep.tier == 'thorough')
     r17 = rep.rule('r17', 'ERASE-ALIGNED: RefsManager::EraseIn, interpreted on every layout of up to three references and every erased range, refuses without changing anything or removes exactly the references inside the erased text and moves those behind it left by its length - no reference outside the erased text is lost, none is cut', 1)
     erase_evaluated(db, r17, rep.tier == 'thorough')
     _write_back_and_resolve(db, rep)
